@@ -316,7 +316,16 @@ CONC_PROGRAMS = [
 ]
 
 
-def run_concurrent(prefix, program):
+# the same, but the server's events (connect, frames, disconnect) also arrive when the explorer says
+CONC_GATED = [
+    (("accept",), ("close",)),
+    (("accept", "send_text"), ("close",)),
+    (("accept",), ("close", "send_text")),
+    (("accept", "receive_text"), ("close",)),
+]
+
+
+def run_concurrent(prefix, program, gate_receive=False):
     """Several tasks call one WebSocket object while the server's send() completes whenever the explorer says. The forwarded
     sequence is what the server sees, in the order its send() was entered."""
     from baize.asgi import WebSocket
@@ -326,9 +335,11 @@ def run_concurrent(prefix, program):
     forwarded, outcomes = [], {}
     with Session() as s:
         async def receive():
-            m = dict(msgs[min(st["pos"], len(msgs) - 1)])
+            k = st["pos"]
             st["pos"] += 1
-            return m
+            if gate_receive:
+                await s.env.gate(f"recv{k:02d}")
+            return dict(msgs[min(k, len(msgs) - 1)])
 
         async def send(message):
             forwarded.append(dict(message))
@@ -339,6 +350,8 @@ def run_concurrent(prefix, program):
         wd = World.__new__(World)
         wd.ws, wd.iters = ws, {}
 
+        states = [(ws.client_state.value, ws.application_state.value)]
+
         async def job(i, ops):
             out = []
             for k, op in enumerate(ops):
@@ -348,12 +361,13 @@ def run_concurrent(prefix, program):
                 except Exception as e:  # noqa
                     out.append(("raise", type(e).__name__))
                 outcomes[i] = out
+                states.append((ws.client_state.value, ws.application_state.value))
 
         async def main():
             await asyncio.gather(*[job(i, ops) for i, ops in enumerate(program)])
         task = s.loop.create_task(main())
         x = s.drive(task, prefix)
-        x.obs = {"stuck": x.obs["stuck"], "trace": x.obs["trace"], "forwarded": forwarded, "outcomes": outcomes, "app_state": ws.application_state.value}
+        x.obs = {"stuck": x.obs["stuck"], "trace": x.obs["trace"], "forwarded": forwarded, "outcomes": outcomes, "app_state": ws.application_state.value, "states": states}
     return x
 
 
@@ -361,7 +375,12 @@ def judge_concurrent(o):
     if o["stuck"]:
         return [f"STUCK ({o['stuck']}): calls never returned although the server completed every send; trace {o['trace'][-8:]}"]
     st, p = monitor(o["forwarded"])
-    return ["forwarded sequence illegal: " + p + f" (forwarded {[m['type'] for m in o['forwarded']]})"] if p else []
+    probs = ["forwarded sequence illegal: " + p + f" (forwarded {[m['type'] for m in o['forwarded']]})"] if p else []
+    for (c0, a0), (c1, a1) in zip(o["states"], o["states"][1:]):
+        if c1 < c0 or a1 < a0:
+            probs.append(f"state moved backwards: client {c0}->{c1}, application {a0}->{a1}")
+            break
+    return probs
 
 
 def run_denial_stream(prefix, kind):
@@ -434,6 +453,7 @@ def shards(tier, seed):
     n = 4 if tier == "quick" else 12
     out += [("pairs", k, n) for k in range(n)]
     out += [("concurrent", i) for i in range(len(CONC_PROGRAMS) - (1 if tier == "quick" else 0))]
+    out += [("concurrent", -1 - i) for i in range(len(CONC_GATED))]
     out += [("denial_stream", kind) for kind in ("stream", "sse")]
     return out
 
@@ -466,7 +486,8 @@ def run_shard(desc, tier):
         return r
     if desc[0] == "concurrent":
         from ..core.explore import dfs
-        program = CONC_PROGRAMS[desc[1]]
+        gated = desc[1] < 0
+        program = CONC_GATED[-1 - desc[1]] if gated else CONC_PROGRAMS[desc[1]]
         outs = set()
 
         def on_exec(x):
@@ -476,9 +497,9 @@ def run_shard(desc, tier):
             outs.add(tuple(m["type"] for m in x.obs["forwarded"]))
             probs = judge_concurrent(x.obs)
             if probs:
-                r.violation("concurrent:" + ("stuck" if probs[0].startswith("STUCK") else "illegal-forwarded-sequence"), {"concurrent": [list(p) for p in program], "schedule": list(x.choices)},
-                            f"tasks {program} calling one WebSocket object, schedule {x.obs['trace']}: {probs[0]}")
-        dfs(lambda prefix: run_concurrent(prefix, program), on_exec)
+                r.violation("concurrent:" + ("stuck" if probs[0].startswith("STUCK") else classify(probs[0])), {"concurrent": [list(p) for p in program], "gated_receive": gated, "schedule": list(x.choices)},
+                            f"tasks {program} calling one WebSocket object{' (server events gated too)' if gated else ''}, schedule {x.obs['trace']}: {probs[0]}")
+        dfs(lambda prefix: run_concurrent(prefix, program, gated), on_exec)
         r.count("states", len(outs))
         r.count("distinct_nontrivial", len(outs))
         r.sample({"concurrent": [list(p) for p in program], "schedules": "every interleaving of task steps and send completions"})
@@ -675,7 +696,7 @@ def replay(w):
         probs = judge_denial_stream(x.obs)
         return bool(probs), {"problems": probs, "trace": x.obs["trace"]}
     if "concurrent" in w:
-        x = run_concurrent(list(w["schedule"]), tuple(tuple(p) for p in w["concurrent"]))
+        x = run_concurrent(list(w["schedule"]), tuple(tuple(p) for p in w["concurrent"]), w.get("gated_receive", False))
         probs = judge_concurrent(x.obs)
         return bool(probs), {"problems": probs, "trace": x.obs["trace"]}
     if "dispatch" in w:
